@@ -100,9 +100,23 @@
 #endif
 #define STALL_MS 100
 
-enum { F_IOFAULT, F_CLOSE_ACCEPT, F_CLOSE_UNREAD, F_CLOSE_READ, F_CLOSE_HALF, F_CLOSE_REPLIED, F_DROP, F_DELAY, F_RESTART, F_KILLALL, F_CLOSE_PARTIAL, F_N };
-static const char *fname[F_N] = { "iofault", "close-accept", "close-unread", "close-read", "close-half", "close-replied", "drop", "delay", "restart", "killall", "close-partial" };
-static const char  fletter[F_N + 1] = "IAURHPDLSKW";
+enum { F_IOFAULT, F_CLOSE_ACCEPT, F_CLOSE_UNREAD, F_CLOSE_READ, F_CLOSE_HALF, F_CLOSE_REPLIED, F_DROP, F_DELAY, F_RESTART, F_KILLALL, F_CLOSE_PARTIAL, F_WRONG_PROTO, F_REFUSE_PIPE, F_N };
+#define F_DRAWN (F_CLOSE_PARTIAL + 1) // kinds drawn directly by the sampled generator (the reject kinds replace a drawn step afterwards)
+static const char *fname[F_N] = { "iofault", "close-accept", "close-unread", "close-read", "close-half", "close-replied", "drop", "delay", "restart", "killall", "close-partial", "wrong-proto", "refuse-pipe" };
+static const char  fletter[F_N + 1] = "IAURHPDLSKWXJ";
+// the two kinds after which the REQUESTER's side rejects a connection that the
+// transport had established (after all connections were killed):
+//   wrong-proto  the next connection's peer completes the SP handshake as
+//                another protocol (PAIR 0x10 | REQ 0x30): req0_pipe_start refuses
+//   refuse-pipe  the requester's own NNG_PIPE_EV_ADD_PRE callback closes the
+//                next pipe
+// afterwards the address is served by the real replier again: the socket must
+// connect again and the outstanding / next request must be answered.
+static bool
+f_reject(int k)
+{
+	return k == F_WRONG_PROTO || k == F_REFUSE_PIPE;
+}
 
 enum { OP_NORMAL, OP_LATE, OP_TIMEOUT, OP_CANCEL, OP_REPLACE, OP_N };
 static const char *opname[OP_N] = { "normal", "late-recv", "timeout", "cancel", "replace" };
@@ -137,6 +151,7 @@ typedef struct {
 	int      reploss; // repeated-loss plan: 1 drop,drop / 2 drop,delay / 3 delay,drop / 4 drop,drop,drop on ONE context and ONE connection that stays up
 	bool     big; // 40-200 kB requests, nng's sends are cut into chunks <= 8 kB (needed for close-partial)
 	bool     mixed; // contexts get their own values (nng_ctx_set_ms), changed between exchanges
+	bool     rejplan; // enumerated rejected-connection plan
 	bool     rtl; // reply-then-loss plan: context 0 (subject) and context 1 (barrier) have a request each on the one connection; the replier answers the subject, then the barrier, and closes when told; the subject posts its receive after the barrier was answered AND the pipe is gone
 	bool     listen; // the REQ socket LISTENS (one listener per replier); the adversary dials it and redials after every loss
 	int      redial; // listen: 0 redial 5-20 ms after a loss, 1 at once, 2 new connection first, old one closed 8 ms later
@@ -184,6 +199,7 @@ typedef struct {
 	bool     close_after_hs;
 	bool     doomed; // scheduled close pending: requests are ignored
 	bool     on_cmd; // rtl plan: close when the subject context says so
+	bool     wrong_proto; // we announced another protocol on it: the requester must drop it
 	bool     close_completes_step;
 	uint64_t close_at;
 	bool     exempt_partial; // a frame was partly read when the last fence was taken
@@ -238,6 +254,10 @@ static struct {
 	int              cur; // current step
 	bool             consumed; // current step consumed, waiting for its completion
 	int              close_next_accept; // 0 none, 1 before hello, 2 after handshake
+	int              wrong_next; // 0 none, else 1 + variant: the next connection announces another protocol
+	atomic_int       refuse_next, refused; // the ADD_PRE callback closes the next pipe / has done so
+	uint32_t         added[64]; // ids of the pipes that got ADD_POST (a rejected pipe gets REM_POST without it)
+	int              miss_fault;
 	long             frames, armed_frames;
 	long             peer_closes, armed_peer_closes;
 	atomic_int       last_fault_kind;
@@ -603,6 +623,19 @@ step_begin(void)
 		mark_fault(F_CLOSE_ACCEPT);
 		G.close_next_accept = 1 + s->var;
 		break;
+	case F_WRONG_PROTO:
+	case F_REFUSE_PIPE:
+		for (int r = 0; r < G.c.nrep; r++) {
+			kill_replier(r, false);
+		}
+		mark_fault(s->kind);
+		if (s->kind == F_WRONG_PROTO) {
+			G.wrong_next = 1 + s->var;
+		} else {
+			atomic_store(&G.refused, 0);
+			atomic_store(&G.refuse_next, 1);
+		}
+		break;
 	default:
 		break;
 	}
@@ -790,7 +823,7 @@ on_frame(conn *c, const uint8_t *p, size_t plen)
 		step_done();
 		return;
 	}
-	if (s == NULL || s->kind == F_IOFAULT || s->kind == F_CLOSE_ACCEPT || s->kind == F_CLOSE_UNREAD || s->kind == F_CLOSE_PARTIAL || (s->kind == F_RESTART && s->var == 1)) {
+	if (s == NULL || f_reject(s->kind) || s->kind == F_IOFAULT || s->kind == F_CLOSE_ACCEPT || s->kind == F_CLOSE_UNREAD || s->kind == F_CLOSE_PARTIAL || (s->kind == F_RESTART && s->var == 1)) {
 		maybe_stale(c, xi);
 		send_reply(c, id, xi, -1, false);
 		return;
@@ -913,6 +946,9 @@ conn_readable(conn *c)
 		}
 		if (n <= 0) {
 			bool done = c->close_after_hs && !c->hs_done;
+			if (c->wrong_proto) {
+				vf_stat("wrong_proto_connection_closed_by_requester", 1);
+			}
 			conn_close(c, true);
 			if (done) {
 				step_done();
@@ -1014,6 +1050,18 @@ conn_new(int fd, int r, uint16_t peer_port)
 	}
 	uint8_t hello[8];
 	vf_sp_hello(hello, 0x31);
+	if (G.wrong_next) {
+		// the address is held by some other SP service for one connection;
+		// the requester refuses the pipe and closes (if it does not, we do
+		// after 300 ms); either way the step is over when it is closed
+		vf_sp_hello(hello, G.wrong_next == 1 ? 0x10 : 0x30);
+		G.wrong_next            = 0;
+		c->wrong_proto          = true;
+		c->doomed               = true;
+		c->close_at             = vf_now_ns() + ms2ns(300);
+		c->close_completes_step = true;
+		G.consumed              = true;
+	}
 	if (vf_fd_write_all(fd, hello, 8, 2000) != 0) {
 		bool done = c->close_after_hs;
 		conn_close(c, true);
@@ -1119,6 +1167,11 @@ adversary(void *arg)
 					step_done();
 				}
 			}
+		}
+		if (started && G.cur < G.c.nsteps && !G.consumed && G.c.steps[G.cur].kind == F_REFUSE_PIPE && atomic_load(&G.refused)) {
+			atomic_store(&G.refused, 0);
+			vf_stat("pipes_refused_by_add_pre_callback", 1);
+			step_done();
 		}
 		for (int i = 0; i < MAXCONN && G.c.rtl; i++) {
 			conn *c = &G.cn[i];
@@ -1296,6 +1349,7 @@ static void
 pipe_cb(nng_pipe p, nng_pipe_ev ev, void *arg)
 {
 	(void) arg;
+	uint32_t id = (uint32_t) nng_pipe_id(p);
 	if (ev == NNG_PIPE_EV_ADD_PRE) {
 		nng_sockaddr sa;
 		if (nng_pipe_self_addr(p, &sa) == 0 && sa.s_family == NNG_AF_INET) {
@@ -1303,9 +1357,28 @@ pipe_cb(nng_pipe p, nng_pipe_ev ev, void *arg)
 		} else if (G.c.tran == 0) {
 			vf_harness_fail("cannot learn the local address of a tcp pipe");
 		}
+		if (atomic_exchange(&G.refuse_next, 0)) {
+			// the application's admission check says no, once
+			nng_pipe_close(p);
+			atomic_store(&G.refused, 1);
+		}
 		return;
 	}
-	atomic_fetch_add(&G.npipes, ev == NNG_PIPE_EV_ADD_POST ? 1 : -1);
+	// (the events of one socket are serialised by the library)
+	pthread_mutex_lock(&G.mx);
+	for (int k = 0; k < 64; k++) {
+		if (ev == NNG_PIPE_EV_ADD_POST && G.added[k] == 0) {
+			G.added[k] = id;
+			atomic_fetch_add(&G.npipes, 1);
+			break;
+		}
+		if (ev == NNG_PIPE_EV_REM_POST && G.added[k] == id) {
+			G.added[k] = 0;
+			atomic_fetch_add(&G.npipes, -1);
+			break;
+		}
+	}
+	pthread_mutex_unlock(&G.mx);
 }
 
 static void
@@ -1316,6 +1389,7 @@ set_miss(const char *what, int xi)
 		xrec *x = &G.x[xi];
 		G.miss          = true;
 		G.miss_retry    = x->retry_ms;
+		G.miss_fault    = atomic_load(&G.last_fault_kind);
 		G.miss_bound_ms = (long) (bound_ns(x->retry_ms) / 1000000);
 		snprintf(G.miss_desc, sizeof(G.miss_desc), "%s: request %d (ctx %d, resend %s, op %s, issued %ld ms ago, on the wire %d times, last fault %s %ld ms ago, plan %s)", what, xi, x->ctx, rn(x->retry_ms), opname[x->op],
 		    (long) ((vf_now_ns() - x->t_issue) / 1000000), x->wire, fname[atomic_load(&G.last_fault_kind)], (long) ((vf_now_ns() - atomic_load(&G.t_fault)) / 1000000), atomic_load(&G.plan_done) ? "finished" : "unfinished");
@@ -1916,6 +1990,10 @@ run_case(long idx, const casecfg *cfg, bool recheck)
 	G.ndl = G.cur = 0;
 	G.consumed          = false;
 	G.close_next_accept = 0;
+	G.wrong_next        = 0;
+	atomic_store(&G.refuse_next, 0);
+	atomic_store(&G.refused, 0);
+	memset(G.added, 0, sizeof(G.added));
 	G.frames = G.armed_frames = G.peer_closes = G.armed_peer_closes = 0;
 	atomic_store(&G.last_fault_kind, cfg->nsteps ? cfg->steps[0].kind : F_DROP);
 	G.retx_loss = G.retx_timer = 0;
@@ -2182,6 +2260,13 @@ run_case(long idx, const casecfg *cfg, bool recheck)
 		if (cfg->rtl) {
 			vf_stat("reply_then_loss_plan_cases", 1);
 		}
+		if (cfg->rejplan) {
+			vf_stat("rejected_connection_plan_cases", 1);
+		}
+		if (G.faults[F_WRONG_PROTO] + G.faults[F_REFUSE_PIPE] > 0) {
+			vf_stat(cfg->nrep == 1 ? "cases_with_rejected_connection_1rep" : "cases_with_rejected_connection_2rep", 1);
+			vf_class("rejected/%s/%s/%s/%s", G.faults[F_WRONG_PROTO] ? "wrong-proto" : "refuse-pipe", cfg->tran ? "ipc" : "tcp", cfg->listen ? "req-listens" : "req-dials", cfg->mixed ? "mixed" : rn(cfg->retry_ms));
+		}
 		vf_stat("request_frames_logged", G.frames);
 		vf_stat("retx_pipe_loss", G.retx_loss);
 		vf_stat("retx_timer", G.retx_timer);
@@ -2204,6 +2289,8 @@ run_case(long idx, const casecfg *cfg, bool recheck)
 		}
 		if (cfg->reploss) {
 			vf_class("plan/repeated-loss/%s/%s/%s", cfg->tran ? "ipc" : "tcp", cfg->rname, cfg->shape);
+		} else if (cfg->rejplan) {
+			vf_class("plan/rejected-connection/%s/%s/%s.%d%s", cfg->tran ? "ipc" : "tcp", cfg->rname, fname[cfg->steps[cfg->nsteps - 1].kind], cfg->steps[cfg->nsteps - 1].var, cfg->nsteps > 1 ? "-after-outage" : "");
 		} else if (cfg->rtl) {
 			vf_class("plan/reply-then-loss/%s/%s/late-recv-on-%s", cfg->tran ? "ipc" : "tcp", cfg->rname, cfg->use_sock ? "socket" : "ctx");
 		} else if (cfg->gap) {
@@ -2236,7 +2323,7 @@ check_case(long idx, casecfg *cfg)
 	int m1 = run_case(idx, cfg, false);
 	if (m1 != 0) {
 		char first[256], late1[256];
-		int  r1 = G.miss_retry;
+		int  r1 = G.miss_retry, f1 = G.miss_fault;
 		snprintf(first, sizeof(first), "%s", G.miss_desc);
 		snprintf(late1, sizeof(late1), "%s", G.late_desc);
 		vf_stat((m1 & 1) ? "progress_miss_rechecked" : "timer_late_rechecked", 1);
@@ -2248,6 +2335,10 @@ check_case(long idx, casecfg *cfg)
 			snprintf(disc, sizeof(disc), "after-idle-gap/%s-then-%s", gapname[cfg->gap], cfg->use_sock ? "socket" : "ctx");
 			snprintf(key, sizeof(key), "C12/%s/%s", r1 < 0 ? "no-retry/no-econnreset-after-loss" : r_timer(r1) ? "bounded-progress/not-answered" : "bounded-progress/not-retransmitted-after-loss",
 			    cfg->gap ? disc : cfg->reploss ? "repeated-reply-loss" : cfg->nsteps == 1 ? fname[cfg->steps[0].kind] : cfg->enumerated ? "outage-then-reply-loss" : "multi-fault");
+			if (f_reject(f1) && f_reject(G.miss_fault)) {
+				// both runs missed right after the requester had rejected a connection
+				snprintf(key, sizeof(key), "C12/bounded-progress/not-answered/after-rejected-connection/%s", fname[f1]);
+			}
 			vf_violation(key, "missed twice (bound %ld ms after the last fault). first run: %s; second run: %s", G.miss_bound_ms, first, G.miss_desc);
 		}
 		if ((m1 & 2) && (m2 & 2)) {
@@ -2439,6 +2530,41 @@ main(int argc, char **argv)
 				}
 			}
 		}
+		// rejected-connection plans: one context, one replier; every connection
+		// is killed and the next one the transport establishes is rejected by
+		// the requester's own side (peer announces PAIR | REQ; ADD_PRE callback
+		// closes the pipe), alone or after "answer, outage of 100 ms during
+		// which the next request is submitted with no pipe"; then the real
+		// replier is back: the socket must connect again
+		for (int tran = 0; tran < 2; tran++) {
+			for (int ri = 0; ri < NRESENDS; ri++) {
+				for (int pl = 0; pl < 6; pl++, idx++) {
+					if ((idx % vf_nshards) != vf_shard || !vf_want_case(idx)) {
+						continue;
+					}
+					casecfg c;
+					memset(&c, 0, sizeof(c));
+					c.enumerated = true;
+					c.tran       = tran;
+					c.retry_ms   = resends[ri];
+					c.tick_ms    = 5 + (int) (vf_mix64(vf_seed ^ (uint64_t) idx) % 16);
+					c.nrep       = 1;
+					c.nctx       = 1;
+					c.rejplan    = true;
+					c.key        = vf_mix64(vf_seed * 31 + (uint64_t) idx);
+					c.nonce      = (uint32_t) (c.key >> 20) & 0xffff;
+					if (pl >= 3) {
+						c.steps[c.nsteps++] = (step){ F_RESTART, 2, 100 };
+					}
+					c.steps[c.nsteps++] = (step){ pl % 3 == 2 ? F_REFUSE_PIPE : F_WRONG_PROTO, pl % 3 == 1, 0 };
+					check_case(idx, &c);
+					if ((++ran % 24) == 0) {
+						vf_nng_fini("C12");
+						vf_nng_init(4, 2, 2);
+					}
+				}
+			}
+		}
 	} else {
 		for (long i = 0; i < vf_cases; i++, idx++) {
 			if (!vf_want_case(idx)) {
@@ -2478,8 +2604,8 @@ main(int argc, char **argv)
 			c.nsteps = 1 + (int) vf_below(&r, c.retry_ms == 200 ? 3 : MAXSTEPS);
 			for (int k = 0; k < c.nsteps; k++) {
 				step *s = &c.steps[k];
-				s->kind = (int) vf_below(&r, c.big ? F_N + 2 : F_N - 1);
-				if (s->kind >= F_N) {
+				s->kind = (int) vf_below(&r, c.big ? F_DRAWN + 2 : F_DRAWN - 1);
+				if (s->kind >= F_DRAWN) {
 					s->kind = F_CLOSE_PARTIAL;
 				}
 				switch (s->kind) {
@@ -2503,6 +2629,13 @@ main(int argc, char **argv)
 			// (drawn last: the other parameters of a case (seed, idx) stay what they were)
 			c.listen = vf_chance(&r, 1, 4);
 			c.redial = (int) vf_below(&r, 3);
+			if (vf_chance(&r, 1, 4)) {
+				// one step becomes a connection the requester's side rejects
+				step *s = &c.steps[vf_below(&r, (uint32_t) c.nsteps)];
+				s->kind = vf_chance(&r, 2, 3) ? F_WRONG_PROTO : F_REFUSE_PIPE;
+				s->var  = (int) vf_below(&r, 2);
+				s->d_ms = 0;
+			}
 			check_case(idx, &c);
 			if ((++ran % 16) == 0) {
 				vf_nng_fini("C12");
